@@ -113,10 +113,12 @@ class NamespaceFunction(Namespace[symtable.Function]):
             self.symt.get_frees(),
             self.symt.get_nonlocals(),
         ):
-            if self.is_method and nonlocal_free == "__class__":
-                # methods may have implicit reference the __class__ (PEP-3135)
-                # which is not need here
-                self.zero_arg_super_used = True
+            if nonlocal_free == "__class__":
+                # the implicit __class__ cell (PEP-3135) is provided by the class
+                # loader and closed over by Python itself: a method only has to
+                # mention it, a function nested in a method needs nothing
+                if self.is_method:
+                    self.zero_arg_super_used = True
                 continue
 
             for outer in reversed(stack):
